@@ -8,6 +8,17 @@ thin layers over LRUTrie.follow_lru / lru_node (GenTrieW.v / GenTrie.v, whose si
   * `raise TraphException(..)`: the function returns None (the message is not modelled).
   * truthiness: `not <bytes>` = empty, `not <optional int>` = None or 0, `not <optional node>` = None.
   * `self.lru_trie.<method>(..)` is a call of the translated LRUTrie method on the trie storage.
+Also the per-webentity enumerations: webentity_page_nodes_iter, get_webentity_pages(_iter), get_webentity_crawled_pages(_iter),
+get_webentity_parent_webentities, get_webentity_child_webentities(_iter), over the translated traversals of GenTrieD.v:
+  * `for prefix in prefixes:` is a fold in the option monad (a prefix that is not in the trie raises: None);
+  * `for node, lru in self.lru_trie.<generator>(..):` runs the translated generator, then folds its items through the body
+    (which may not touch the storage);
+  * the iterator protocol of the generator requests is given its sequential meaning: `state = TraphIteratorState()` and
+    `if state.should_yield(k): yield state` are scheduling points without effect when the request runs alone (class and
+    run_iterator are checked textually), `yield state.finalize(x)` ends the request with x, and
+    `return run_iterator(self.<m>_iter(..))` is the request <m>_iter run to its end;
+  * `{"lru": a, "crawled": b}` is the pair (a, b); `set()` of webentity ids is a list without repetition in insertion order
+    (`list(weids)`: the order of a Python set is not modelled; the theorems speak of its elements).
 GenTraphFacts.v proves each equal to the model's Traph.retrieve_prefix / retrieve_webentity / webentity_by_prefix on the
 trie file of every reachable state; Props/C04.v restates C04 for the translated functions."""
 import ast
@@ -18,13 +29,14 @@ sys.path.insert(0, os.path.dirname(os.path.abspath(__file__)))
 import gen_links as GL       # noqa: E402
 import gen_trie as GT        # noqa: E402
 import gen_triew as GW       # noqa: E402
+import gen_tried as GD       # noqa: E402
 
 REPO = os.environ.get("VERIF_REPO", "/repo")
 Unsupported = GL.Unsupported
 
 
-class FnT(GL.Fn):
-    def expr(self, e, env):
+class FnT(GD.FnD):
+    def expr0(self, e, env):
         if isinstance(e, ast.UnaryOp) and isinstance(e.op, ast.Not):
             if isinstance(e.operand, ast.Name) and env.get(e.operand.id) == "otnode":
                 return "(match v_%s with None => true | Some _ => false end)" % e.operand.id, "bool"
@@ -36,15 +48,15 @@ class FnT(GL.Fn):
             if ta == "bool":
                 return "(negb %s)" % a, "bool"
             raise Unsupported("not of %s" % ta)
-        return GL.Fn.expr(self, e, env)
+        return GD.FnD.expr(self, e, env)
 
     def cond(self, t, env, kt, kf):
         if isinstance(t, ast.UnaryOp) and isinstance(t.op, ast.Not) and isinstance(t.operand, ast.Name) and env.get(t.operand.id) == "otnode":
             n = t.operand.id
             return "(match v_%s with\n | None => %s\n | Some v_%s => %s end)" % (n, kt(dict(env)), n, kf(dict(env, **{n: "tnode"})))
-        return GL.Fn.cond(self, t, env, kt, kf)
+        return GD.FnD.cond(self, t, env, kt, kf)
 
-    def block(self, stmts, env, k):
+    def block0(self, stmts, env, k):
         if stmts:
             s, rest = stmts[0], stmts[1:]
             if isinstance(s, ast.Expr) and isinstance(s.value, ast.Constant) and isinstance(s.value.value, str):
@@ -61,9 +73,9 @@ class FnT(GL.Fn):
                     # the integer itself is returned: None here would be returned as None, which no caller of these requests
                     # distinguishes from a number; the branch is unreachable after the truthiness test above it
                     return "(match %s with\n | None => %s\n | Some v__x => %s end)" % (a, self.fail(), self.ret("v__x", env))
-        return GL.Fn.block(self, stmts, env, k)
+        return GD.FnD.block(self, stmts, env, k)
 
-    def call_stmt(self, c, target, env, nxt):
+    def call_stmt0(self, c, target, env, nxt):
         f = c.func
         if isinstance(f, ast.Attribute) and ast.unparse(f.value) == "self.lru_trie":
             sig = self.tr.sigs.get(("tstore", f.attr))
@@ -81,7 +93,147 @@ class FnT(GL.Fn):
                 env2 = dict(env, **{target: sig["rtype"]})
             return "(match %s sg%s with\n | None => %s\n | Some (sg, %s) => %s end)" % (
                 sig["coq"], "".join(" " + x for x in args), self.fail(), pat, nxt(env2))
-        return GL.Fn.call_stmt(self, c, target, env, nxt)
+        return GD.FnD.call_stmt(self, c, target, env, nxt)
+
+    # ---------- the iterator protocol, dict literals, loops over prefixes and over generators ----------
+    def expr(self, e, env):   # noqa: F811  (extends the definition above)
+        if isinstance(e, ast.Dict) and [ast.unparse(k) for k in e.keys] == ["'lru'", "'crawled'"]:
+            a, ta = self.expr(e.values[0], env)
+            b, tb = self.expr(e.values[1], env)
+            if (ta, tb) != ("bytes", "bool"):
+                raise Unsupported("page dict of %s, %s" % (ta, tb))
+            return "(%s, %s)" % (a, b), "pagerec"
+        if isinstance(e, ast.BoolOp) and isinstance(e.op, ast.And) and isinstance(e.values[0], ast.Name) and env.get(e.values[0].id) == "oN":
+            # x and <tests on x>: x is None or 0 -> false
+            n = e.values[0].id
+            rest = [self.expr(v, dict(env, **{n: "N"})) for v in e.values[1:]]
+            if any(t != "bool" for _, t in rest):
+                raise Unsupported("and of non-booleans")
+            return "(match v_%s with None => false | Some v_%s => (negb (N.eqb v_%s 0%%N))%s end)" % (
+                n, n, n, "".join(" && " + a for a, _ in rest)), "bool"
+        return self.expr0(e, env)
+
+    def block(self, stmts, env, k):   # noqa: F811
+        if stmts:
+            s, rest = stmts[0], stmts[1:]
+            if isinstance(s, ast.Assign) and len(s.targets) == 1 and isinstance(s.targets[0], ast.Name) \
+                    and ast.unparse(s.value) == "TraphIteratorState()":
+                return self.block(rest, dict(env, **{s.targets[0].id: "itstate"}), k)
+            if isinstance(s, ast.If) and not s.orelse and len(s.body) == 1 and isinstance(s.test, ast.Call) \
+                    and isinstance(s.test.func, ast.Attribute) and s.test.func.attr == "should_yield" \
+                    and isinstance(s.test.func.value, ast.Name) and env.get(s.test.func.value.id) == "itstate" \
+                    and ast.unparse(s.body[0]) == "yield %s" % s.test.func.value.id:
+                return self.block(rest, env, k)             # a scheduling point
+            if isinstance(s, ast.Expr) and isinstance(s.value, ast.Yield) and isinstance(s.value.value, ast.Call) \
+                    and isinstance(s.value.value.func, ast.Attribute) and s.value.value.func.attr == "finalize" \
+                    and isinstance(s.value.value.func.value, ast.Name) and env.get(s.value.value.func.value.id) == "itstate" \
+                    and len(s.value.value.args) == 1 and not rest and self.loop_k is None:
+                a, ta = self.expr(s.value.value.args[0], env)
+                return self.ret(self.coerce(a, ta, self.rtype), env)
+            if isinstance(s, ast.Assign) and len(s.targets) == 1 and isinstance(s.targets[0], ast.Name) and isinstance(s.value, ast.List) \
+                    and not s.value.elts and self.decl.get(s.targets[0].id) == "pagerecs":
+                return "(let v_%s := (@nil (bytes * bool)) in\n %s)" % (s.targets[0].id, self.block(rest, dict(env, **{s.targets[0].id: "pagerecs"}), k))
+        return self.block0(stmts, env, k)
+
+    def call_stmt(self, c, target, env, nxt):   # noqa: F811
+        f = c.func
+        if isinstance(f, ast.Attribute) and f.attr == "append" and isinstance(f.value, ast.Name) and env.get(f.value.id) == "pagerecs" \
+                and len(c.args) == 1 and not c.keywords and target is None:
+            a, ta = self.expr(c.args[0], env)
+            if ta != "pagerec":
+                raise Unsupported("append of %s" % ta)
+            return "(let v_%s := v_%s ++ [%s] in\n %s)" % (f.value.id, f.value.id, a, nxt())
+        return self.call_stmt0(c, target, env, nxt)
+
+    def fold_state(self, body, env):
+        names = set()
+        has_yield = False
+        for n in ast.walk(ast.Module(body=list(body), type_ignores=[])):
+            if isinstance(n, ast.Assign):
+                for t in n.targets:
+                    for y in ast.walk(t):
+                        if isinstance(y, ast.Name):
+                            names.add(y.id)
+            if isinstance(n, ast.AugAssign) and isinstance(n.target, ast.Name):
+                names.add(n.target.id)
+            if isinstance(n, ast.Call) and isinstance(n.func, ast.Attribute) and isinstance(n.func.value, ast.Name) \
+                    and n.func.attr in ("add", "append"):
+                names.add(n.func.value.id)
+            if isinstance(n, ast.For):
+                for y in ast.walk(n.target):
+                    if isinstance(y, ast.Name):
+                        names.discard(y.id)
+            if isinstance(n, ast.Yield):
+                has_yield = True
+        names = sorted(x for x in names if x in env and env[x] in ("oNset", "pagerecs", "N", "bool", "bytes"))
+        return names, has_yield
+
+    def forloop(self, s, env, nxt):
+        if s.orelse:
+            raise Unsupported("for-else")
+        # ---- for prefix in prefixes: ----
+        if isinstance(s.target, ast.Name) and isinstance(s.iter, ast.Name) and env.get(s.iter.id) == "listB":
+            if self.loop_k is not None:
+                raise Unsupported("nested loop over prefixes")
+            names, has_yield = self.fold_state(s.body, env)
+            has_yield = has_yield and self.gen is not None
+            vars_ = ["sg"] + ["v_%s" % n for n in names] + (["v__out"] if has_yield else [])
+            types = ["py_pm"] + [GL.COQT[env[n]] for n in names] + (["list (%s)" % GL.COQT[self.gen]] if has_yield else [])
+            pat, ty = "(" + ", ".join(vars_) + ")", "(" + " * ".join(types) + ")"
+
+            def pack(e2):
+                return "(Some (" + ", ".join(["sg"] + [self.coerce("v_%s" % n, e2[n], env[n]) for n in names] + (["v__out"] if has_yield else [])) + "))"
+            self.loop_k = True
+            body = self.block(list(s.body), dict(env, **{s.target.id: "bytes"}), pack)
+            self.loop_k = None
+            return ("(match fold_left (fun (st : option %s) (v_%s : bytes) =>\n match st with\n | None => None\n | Some %s => %s end)\n v_%s (Some %s) with\n"
+                    " | None => %s\n | Some %s => %s end)" % (ty, s.target.id, pat, body, s.iter.id, pat, self.fail(), pat, nxt()))
+        # ---- for <items> in self.lru_trie.<generator>(args): a body that does not touch the storage ----
+        if isinstance(s.iter, ast.Call) and isinstance(s.iter.func, ast.Attribute) and ast.unparse(s.iter.func.value) in ("self.lru_trie", "self"):
+            sig = self.tr.sigs.get(("tstore" if ast.unparse(s.iter.func.value) == "self.lru_trie" else "traph", s.iter.func.attr))
+            if sig is None or sig["kind"] != "gen":
+                raise Unsupported("loop over lru_trie.%s" % s.iter.func.attr)
+            if sig["item"] == "pair:tnode:bytes":
+                if not (isinstance(s.target, ast.Tuple) and len(s.target.elts) == 2 and all(isinstance(x, ast.Name) for x in s.target.elts)):
+                    raise Unsupported("target of a loop over pairs")
+                tn = [x.id for x in s.target.elts]
+                env1 = dict(env, **{tn[0]: "tnode", tn[1]: "bytes"})
+                bind = "let '(v_%s, v_%s) := v__it in" % (tn[0], tn[1])
+            elif sig["item"] == "tnode" and isinstance(s.target, ast.Name):
+                env1 = dict(env, **{s.target.id: "tnode"})
+                bind = "let v_%s := v__it in" % s.target.id
+            else:
+                raise Unsupported("items of %s" % s.iter.func.attr)
+            for n in ast.walk(ast.Module(body=list(s.body), type_ignores=[])):
+                if isinstance(n, ast.Call) and isinstance(n.func, ast.Attribute) and isinstance(n.func.value, ast.Name):
+                    sg_ = self.tr.sigs.get((env1.get(n.func.value.id), n.func.attr))
+                    if sg_ and sg_["kind"] != "pure" and n.func.attr not in ("add", "append", "should_yield"):
+                        raise Unsupported("effectful call in the body of a loop over a generator")
+                if isinstance(n, (ast.Return, ast.Break, ast.Raise, ast.For, ast.While)):
+                    raise Unsupported("exit from / loop in a loop over a generator")
+            names, has_yield = self.fold_state(s.body, env1)
+            has_yield = has_yield and self.gen is not None
+            vars_ = ["v_%s" % n for n in names] + (["v__out"] if has_yield else [])
+            types = [GL.COQT[env[n]] for n in names] + (["list (%s)" % GL.COQT[self.gen]] if has_yield else [])
+            if not vars_:
+                raise Unsupported("loop over a generator without effect")
+            pat = "(" + ", ".join(vars_) + ")" if len(vars_) > 1 else vars_[0]
+            ty = "(" + " * ".join(types) + ")" if len(types) > 1 else types[0]
+            q = "'" if len(vars_) > 1 else ""
+
+            def packg(e2):
+                out = [self.coerce("v_%s" % n, e2[n], env[n]) for n in names] + (["v__out"] if has_yield else [])
+                return "(" + ", ".join(out) + ")" if len(out) > 1 else out[0]
+            saved_k, saved_opt = self.loop_k, self.opt
+            self.loop_k, self.opt = True, False
+            try:
+                body = self.block(list(s.body), env1, packg)
+            finally:
+                self.loop_k, self.opt = saved_k, saved_opt
+            args = self.args(s.iter, sig, env)
+            return ("(match %s sg%s with\n | None => %s\n | Some (v__items, sg) =>\n (let %s%s := fold_left (fun (st : %s) (v__it : %s) => let %s%s := st in %s\n %s) v__items %s in\n %s) end)"
+                    % (sig["coq"], "".join(" " + a for a in args), self.fail(), q, pat, ty, GL.COQT[sig["item"]], q, pat, bind, body, pat, nxt()))
+        return GD.FnD.forloop(self, s, env, nxt)
 
 
 def api_fn(T, TR, name, params, rtype, rcoq):
@@ -98,11 +250,48 @@ def api_fn(T, TR, name, params, rtype, rcoq):
     T.out.append("Definition py_traph_%s (sg : py_pm)%s : option (py_pm * %s) :=\n %s." % (name, ps, rcoq, body))
 
 
+def api_gen(T, TR, name, params, item):
+    """a generator method of Traph yielding (node, lru) pairs: (sg, args) -> option (list item * py_pm)"""
+    fn = TR[name]
+    if [a.arg for a in fn.args.args] != ["self"] + [p[0] for p in params] or fn.args.defaults or fn.args.vararg or fn.args.kwarg:
+        raise Unsupported("%s signature" % name)
+    f = FnT(T, fn, None, "traph", True, None, gen=item)
+    f.returns = []
+    f.has_sg = True
+    f.gen_sg = True
+    body = f.block(list(fn.body), dict((p[0], p[1]) for p in params), lambda e2: "(Some (v__out, sg))")
+    ps = "".join(" (v_%s : %s)" % (p[0], GL.COQT[p[1]]) for p in params)
+    T.out.append("Definition py_traph_%s (sg : py_pm)%s : option (list %s * py_pm) :=\n (let v__out := (@nil %s) in\n %s)."
+                 % (name, ps, GL.COQT[item], GL.COQT[item], body))
+    T.sigs[("traph", name)] = {"kind": "gen", "params": params, "item": item, "coq": "py_traph_" + name}
+
+
+def api_iter(T, TR, name, params, rtype, rcoq, decl=None):
+    """<name>_iter is a generator request; <name> runs it to its end"""
+    it = TR[name + "_iter"]
+    if [a.arg for a in it.args.args] != ["self"] + [p[0] for p in params] or it.args.defaults or it.args.vararg or it.args.kwarg:
+        raise Unsupported("%s_iter signature" % name)
+    f = FnT(T, it, None, "traph", True, rtype, decl=decl or {})
+    f.returns = ["sg"]
+    f.has_sg = True
+    f.rcoq = "option (py_pm * %s)" % rcoq
+    body = f.block(list(it.body), dict((p[0], p[1]) for p in params),
+                   lambda e2: (_ for _ in ()).throw(Unsupported("%s_iter falls off its end without finalize" % name)))
+    ps = "".join(" (v_%s : %s)" % (p[0], GL.COQT[p[1]]) for p in params)
+    T.out.append("Definition py_traph_%s (sg : py_pm)%s : option (py_pm * %s) :=\n %s." % (name, ps, rcoq, body))
+    fn = TR[name]
+    want = "return run_iterator(self.%s_iter(%s))" % (name, ", ".join(p[0] for p in params))
+    if [a.arg for a in fn.args.args] != ["self"] + [p[0] for p in params] or len(fn.body) != 1 or ast.unparse(fn.body[0]) != want:
+        raise Unsupported("%s body" % name)
+
+
 def main(out):
     T, _, TN, LT = GT.build()
     GW.register(T, TN, LT)
+    GD.register(T, LT)
     T.sigs[("tstore", "lru_node")] = {"kind": "tfn", "params": [("lru", "bytes", None)], "rtype": "otnode", "coq": "py_trie_lru_node"}
     T.out = []
+    GL.COQT.update({"pagerecs": "list (bytes * bool)", "pagerec": "(bytes * bool)"})
     p = os.path.join(REPO, "traph", "traph.py")
     tree = ast.parse(open(p).read(), p)
     c = [n for n in tree.body if isinstance(n, ast.ClassDef) and n.name == "Traph"]
@@ -117,12 +306,30 @@ def main(out):
     init_src = ast.unparse(TR["__init__"])
     if "self.lru_trie = LRUTrie(self.lru_trie_storage, encoding=encoding)" not in init_src:
         raise Unsupported("Traph.__init__: lru_trie")
+    # the iterator protocol
+    pi = os.path.join(REPO, "traph", "traph_iterator_state.py")
+    ti = ast.parse(open(pi).read(), pi)
+    want_state = ("class TraphIteratorState(object):\n\n    def __init__(self):\n        self.done = False\n        self.result = None\n"
+                  "        self.n_iterations = 0\n\n    def should_yield(self, yield_frequency=1000):\n        self.n_iterations += 1\n"
+                  "        return not self.n_iterations % yield_frequency\n\n    def finalize(self, result):\n        self.done = True\n"
+                  "        self.result = result\n        return self")
+    want_run = "def run_iterator(iterator):\n    for state in iterator:\n        pass\n    return state.result"
+    got = [ast.unparse(n) for n in ti.body if isinstance(n, (ast.ClassDef, ast.FunctionDef))]
+    if got != [want_state, want_run]:
+        raise Unsupported("traph_iterator_state.py: %s" % got)
     L = ["(* GENERATED by harness/gen_traph.py from %s/traph/traph.py -- do not edit *)" % REPO,
          "From Coq Require Import List NArith Bool Arith.", "Import ListNotations.",
-         "From Traph Require Import Bytes Consts Layout Codec GenStorage GenNode GenTrie GenTrieW.", ""]
+         "From Traph Require Import Bytes Consts Layout Codec GenStorage GenNode GenLinks GenTrie GenTrieW GenTrieD.", ""]
     api_fn(T, TR, "retrieve_prefix", [("lru", "bytes", None)], "bytes", "bytes")
     api_fn(T, TR, "retrieve_webentity", [("lru", "bytes", None)], "N", "N")
     api_fn(T, TR, "get_webentity_by_prefix", [("prefix", "bytes", None)], "N", "N")
+    api_gen(T, TR, "webentity_page_nodes_iter", [("weid", "N", None), ("prefixes", "listB", None)], "pair:tnode:bytes")
+    api_iter(T, TR, "get_webentity_pages", [("weid", "N", None), ("prefixes", "listB", None)], "pagerecs", "list (bytes * bool)",
+             decl={"pages": "pagerecs"})
+    api_iter(T, TR, "get_webentity_crawled_pages", [("weid", "N", None), ("prefixes", "listB", None)], "pagerecs", "list (bytes * bool)",
+             decl={"pages": "pagerecs"})
+    api_fn(T, TR, "get_webentity_parent_webentities", [("weid", "N", None), ("prefixes", "listB", None)], "oNset", "list (option N)")
+    api_iter(T, TR, "get_webentity_child_webentities", [("weid", "N", None), ("prefixes", "listB", None)], "oNset", "list (option N)")
     text = "\n".join(L + T.out) + "\n"
     old = open(out).read() if os.path.exists(out) else None
     if old != text:
